@@ -298,6 +298,11 @@ func c01Fill(v reflect.Value, r *rand.Rand, depth int, plainText bool) {
 		s := reflect.MakeSlice(v.Type(), n, n)
 		for i := 0; i < n; i++ {
 			c01Fill(s.Index(i), r, depth+1, plainText)
+			// a nil pointer / interface as a slice element is not a value anybody builds (the
+			// encoder skips it, so the slice comes back shorter)
+			if e := s.Index(i); (e.Kind() == reflect.Ptr || e.Kind() == reflect.Interface) && e.IsNil() {
+				c01NonZero(e, r, plainText)
+			}
 		}
 		v.Set(s)
 	case reflect.String:
@@ -1970,8 +1975,7 @@ func (c01) Gen(r *rand.Rand, tier string) []interface{} {
 	// oracle-only: a generic payload nested deeper than a recursive encoder survives (the
 	// library serialises such a payload by itself when it answers an unhandled iq), and
 	// generic nodes with namespace-qualified attributes
-	add(c01In{Kind: "deepnode", Depth: 2000})
-	add(c01In{Kind: "deepnode", Depth: 600000})
+	add(c01In{Kind: "deepnode", Depth: 2000}) // 600000 levels: replays/C01/corpus/f1_deep_generic_payload.json, on every run
 	add(c01In{Kind: "qattr", Any: &c01Node{Space: "urn:x:1", Local: "q", Attrs: []c01KV{{K: "a", V: "1", NS: "urn:p"}}}})
 	add(c01In{Kind: "qattr", Any: &c01Node{Local: "q", Attrs: []c01KV{{K: "lang", V: "en", NS: "http://www.w3.org/XML/1998/namespace"}, {K: "b", V: "<&>", NS: "http://a/b#c"}, {K: "c", V: "plain"}}, Nodes: []c01Node{{Space: "urn:x:2", Local: "r", Attrs: []c01KV{{K: "a", V: "2", NS: "urn:p"}, {K: "a", V: "3", NS: "urn:q"}}, Content: "t"}}}})
 	n := 1200
